@@ -93,6 +93,7 @@ def clean_composite_curve(
         return y_vals, x_vals
 
     x_clean, y_clean = [x_vals[0]], [y_vals[0]]
+    last = 0 # index of the last point kept
 
     for i in range(1, len(x_vals) - 1):
         x1, x2, x3 = x_vals[i - 1], x_vals[i], x_vals[i + 1]
@@ -100,15 +101,28 @@ def clean_composite_curve(
 
         if x1 == x3:
             # All three x are the same; keep x2 only if y2 is different
-            if x1 != x2:
-                x_clean.append(x2)
-                y_clean.append(y2)
+            keep = x1 != x2
         else:
             # Linear interpolation check
             y_interp = y1 + (y3 - y1) * (x2 - x1) / (x3 - x1)
-            if abs(y2 - y_interp) > tol:
-                x_clean.append(x2)
-                y_clean.append(y2)
+            keep = abs(y2 - y_interp) > tol
+
+        if not keep:
+            # Removals must not add up: every point dropped since the last kept one stays on the chord to the next point
+            xa, ya, xb, yb = x_vals[last], y_vals[last], x3, y3
+            for j in range(last + 1, i + 1):
+                if xa == xb:
+                    off = abs(x_vals[j] - xa)
+                else:
+                    off = abs(y_vals[j] - (ya + (yb - ya) * (x_vals[j] - xa) / (xb - xa)))
+                if off > tol:
+                    keep = True
+                    break
+
+        if keep:
+            x_clean.append(x2)
+            y_clean.append(y2)
+            last = i
 
     x_clean.append(x_vals[-1])
     y_clean.append(y_vals[-1])
